@@ -20,9 +20,9 @@
 (***************************************************************************)
 EXTENDS Integers, Sequences, FiniteSets, TLC, Json, IOUtils
 
-Kinds == {"t", "tr", "u", "ur", "r", "uk"}   \* table+gc, table+gc resurrecting, userdata gc+release, same resurrecting, userdata release only,
+Kinds == {"t", "tr", "ta", "u", "ur", "r", "uk"}   \* table+gc, table+gc resurrecting, table+gc re-arming (its finaliser marks it again), userdata gc+release, same resurrecting, userdata release only,
                                            \* uk: userdata gc+release whose finaliser exhausts the CPU limit of its context (only created inside one)
-HasGc(k) == k \in {"t", "tr", "u", "ur", "uk"}
+HasGc(k) == k \in {"t", "tr", "ta", "u", "ur", "uk"}
 HasRel(k) == k \in {"u", "ur", "r", "uk"}
 Resurrects(k) == k \in {"tr", "ur"}
 
@@ -40,12 +40,13 @@ VARIABLES l,
           dead,      \* set of contexts that have been left
           ord,       \* [id -> position in the order of marking (re-marking moves a value to the end)]
           killedc,   \* contexts that ended by a kill (their finalisers are skipped)
-          lastb      \* id of the last value finalised by the current closing batch (reverse order of marking)
-tvars == <<l, kind, iso, reach, fin, rel, ctx, nctx, dead, ord, killedc, lastb>>
+          lastb,     \* id of the last value finalised by the current closing batch (reverse order of marking)
+          noob       \* values marked again by their own finaliser while their context / the runtime was closing: no obligation
+tvars == <<l, kind, iso, reach, fin, rel, ctx, nctx, dead, ord, killedc, lastb, noob>>
 Ids == 1..64
 
 Fresh == /\ kind = [i \in Ids |-> "none"] /\ iso = [i \in Ids |-> 0] /\ reach = [i \in Ids |-> FALSE]
-         /\ fin = [i \in Ids |-> 0] /\ rel = [i \in Ids |-> 0] /\ ctx = <<>> /\ nctx = 0 /\ dead = {} /\ ord = [i \in Ids |-> 0] /\ killedc = {} /\ lastb = 2000000000
+         /\ fin = [i \in Ids |-> 0] /\ rel = [i \in Ids |-> 0] /\ ctx = <<>> /\ nctx = 0 /\ dead = {} /\ ord = [i \in Ids |-> 0] /\ killedc = {} /\ lastb = 2000000000 /\ noob = {}
 TInit == l = 1 /\ Fresh /\ TLCSet(1, 0)
 Ev == Trace[l]
 Is(k) == l <= Len(Trace) /\ Ev.k = k
@@ -55,19 +56,27 @@ Cur == IF ctx = <<>> THEN 0 ELSE ctx[Len(ctx)]
 TMk == /\ Is("mk") /\ kind[Ev.id] = "none"
        /\ kind' = [kind EXCEPT ![Ev.id] = Ev.kind] /\ iso' = [iso EXCEPT ![Ev.id] = Cur]
        /\ reach' = [reach EXCEPT ![Ev.id] = TRUE] /\ ord' = [ord EXCEPT ![Ev.id] = l]
-       /\ Adv /\ lastb' = 2000000000 /\ UNCHANGED <<fin, rel, ctx, nctx, dead, killedc>>
+       /\ Adv /\ lastb' = 2000000000 /\ UNCHANGED <<fin, rel, ctx, nctx, dead, killedc, noob>>
 TDrop == /\ Is("drop") /\ reach' = [reach EXCEPT ![Ev.id] = FALSE]
-         /\ Adv /\ lastb' = 2000000000 /\ UNCHANGED <<kind, iso, fin, rel, ctx, nctx, dead, ord, killedc>>
+         /\ Adv /\ lastb' = 2000000000 /\ UNCHANGED <<kind, iso, fin, rel, ctx, nctx, dead, ord, killedc, noob>>
 (* setmetatable again on a marked value: it becomes the most recently marked one and may be finalised (once) again *)
 (* the context that marks a value owns it from then on (it is finalised when THAT context is closed, at the latest);
    the program holds a reference to it, since it just passed it to setmetatable *)
 TRemark == /\ Is("remark") /\ kind[Ev.id] # "none"
            /\ ord' = [ord EXCEPT ![Ev.id] = l] /\ fin' = [fin EXCEPT ![Ev.id] = 0]
            /\ iso' = [iso EXCEPT ![Ev.id] = Cur] /\ reach' = [reach EXCEPT ![Ev.id] = TRUE]
-           /\ Adv /\ lastb' = 2000000000 /\ UNCHANGED <<kind, rel, ctx, nctx, dead, killedc>>
-TCollect == /\ Is("collect") /\ Adv /\ lastb' = 2000000000 /\ UNCHANGED <<kind, iso, reach, fin, rel, ctx, nctx, dead, ord, killedc>>
+           /\ Adv /\ lastb' = 2000000000 /\ UNCHANGED <<kind, rel, ctx, nctx, dead, killedc, noob>>
+(* the finaliser of a value marks the value again (setmetatable(o, mt) inside __gc): while the program runs this is a
+   new marking (the value is owed one more finalisation, and is the most recently marked one); while its context or
+   the runtime is closing the implementation may or may not honour it (C Lua does not) *)
+TRearm == /\ Is("rearm") /\ kind[Ev.id] # "none" /\ fin[Ev.id] = 1
+          /\ fin' = [fin EXCEPT ![Ev.id] = 0] /\ ord' = [ord EXCEPT ![Ev.id] = l]
+          /\ noob' = IF Ev.phase = "run" THEN noob \ {Ev.id} ELSE noob \cup {Ev.id}
+          /\ lastb' = IF Ev.phase = "run" THEN lastb ELSE 2000000000      \* a second round of the closing batch may begin
+          /\ Adv /\ UNCHANGED <<kind, iso, reach, rel, ctx, nctx, dead, killedc>>
+TCollect == /\ Is("collect") /\ Adv /\ lastb' = 2000000000 /\ UNCHANGED <<kind, iso, reach, fin, rel, ctx, nctx, dead, ord, killedc, noob>>
 TEnter == /\ Is("enter") /\ nctx' = nctx + 1 /\ ctx' = Append(ctx, nctx + 1)
-          /\ Adv /\ lastb' = 2000000000 /\ UNCHANGED <<kind, iso, reach, fin, rel, dead, ord, killedc>>
+          /\ Adv /\ lastb' = 2000000000 /\ UNCHANGED <<kind, iso, reach, fin, rel, dead, ord, killedc, noob>>
 
 (* Ev.phase: "run", or "pop" when the event belongs to the block of finaliser/release events that immediately
    precedes the end of the innermost context, or "close" for the block after the main chunk ended *)
@@ -87,7 +96,7 @@ TGc ==
   /\ lastb' = IF reach[Ev.id] THEN ord[Ev.id] ELSE lastb
   /\ fin' = [fin EXCEPT ![Ev.id] = 1]
   /\ reach' = [reach EXCEPT ![Ev.id] = IF Resurrects(kind[Ev.id]) /\ ~Closing(Ev.id) THEN TRUE ELSE reach[Ev.id]]
-  /\ Adv /\ UNCHANGED <<kind, iso, rel, ctx, nctx, dead, ord, killedc>>
+  /\ Adv /\ UNCHANGED <<kind, iso, rel, ctx, nctx, dead, ord, killedc, noob>>
 
 TRel ==
   /\ Is("release") /\ HasRel(kind[Ev.id])
@@ -95,7 +104,7 @@ TRel ==
   /\ (~reach[Ev.id] \/ Closing(Ev.id))
   /\ (HasGc(kind[Ev.id]) => (fin[Ev.id] = 1 \/ (Ev.phase = "pop" /\ Ev.pst = "killed")))   \* after its finaliser, unless the context was killed
   /\ rel' = [rel EXCEPT ![Ev.id] = 1]
-  /\ Adv /\ UNCHANGED <<kind, iso, reach, fin, ctx, nctx, dead, ord, killedc, lastb>>
+  /\ Adv /\ UNCHANGED <<kind, iso, reach, fin, ctx, nctx, dead, ord, killedc, lastb, noob>>
 
 (* the innermost limited context ended with status Ev.st: everything it created is finalised (unless killed)
    and released; finalisers of values still pending at that point ran in reverse order of marking (Ev.ordered) *)
@@ -103,25 +112,25 @@ TLeave ==
   /\ Is("leave") /\ Ev.lvl >= 1 /\ Ev.lvl <= Len(ctx)
   /\ (Ev.lvl < Len(ctx) => Ev.st = "killed")            \* inner contexts can only vanish silently through a kill
   /\ \A i \in Ids : (kind[i] # "none" /\ iso[i] \in Ending(Ev.lvl)) =>
-        /\ (HasGc(kind[i]) /\ Ev.st # "killed" => fin[i] = 1)
+        /\ (HasGc(kind[i]) /\ Ev.st # "killed" /\ i \notin noob => fin[i] = 1)
         /\ (HasRel(kind[i]) => rel[i] = 1)
   /\ lastb' = 2000000000
   /\ dead' = dead \cup Ending(Ev.lvl) /\ ctx' = SubSeq(ctx, 1, Ev.lvl - 1)
   /\ killedc' = IF Ev.st = "killed" THEN killedc \cup Ending(Ev.lvl) ELSE killedc
   /\ reach' = [i \in Ids |-> IF iso[i] \in Ending(Ev.lvl) THEN FALSE ELSE reach[i]]
-  /\ Adv /\ UNCHANGED <<kind, iso, fin, rel, nctx, ord>>
+  /\ Adv /\ UNCHANGED <<kind, iso, fin, rel, nctx, ord, noob>>
 
 (* the runtime was closed *)
 TEnd ==
   /\ Is("end") /\ ctx = <<>>
-  /\ \A i \in Ids : kind[i] # "none" => ((HasGc(kind[i]) => (fin[i] = 1 \/ iso[i] \in killedc)) /\ (HasRel(kind[i]) => rel[i] = 1))
-  /\ Adv /\ UNCHANGED <<kind, iso, reach, fin, rel, ctx, nctx, dead, ord, killedc, lastb>>
+  /\ \A i \in Ids : kind[i] # "none" => ((HasGc(kind[i]) => (fin[i] = 1 \/ iso[i] \in killedc \/ i \in noob)) /\ (HasRel(kind[i]) => rel[i] = 1))
+  /\ Adv /\ UNCHANGED <<kind, iso, reach, fin, rel, ctx, nctx, dead, ord, killedc, lastb, noob>>
 
 TReset == /\ Is("reset") /\ Adv
           /\ kind' = [i \in Ids |-> "none"] /\ iso' = [i \in Ids |-> 0] /\ reach' = [i \in Ids |-> FALSE]
-          /\ fin' = [i \in Ids |-> 0] /\ rel' = [i \in Ids |-> 0] /\ ctx' = <<>> /\ nctx' = 0 /\ dead' = {} /\ ord' = [i \in Ids |-> 0] /\ killedc' = {} /\ lastb' = 2000000000
+          /\ fin' = [i \in Ids |-> 0] /\ rel' = [i \in Ids |-> 0] /\ ctx' = <<>> /\ nctx' = 0 /\ dead' = {} /\ ord' = [i \in Ids |-> 0] /\ killedc' = {} /\ lastb' = 2000000000 /\ noob' = {}
 
-TNext == TMk \/ TDrop \/ TRemark \/ TCollect \/ TEnter \/ TGc \/ TRel \/ TLeave \/ TEnd \/ TReset
+TNext == TMk \/ TDrop \/ TRemark \/ TRearm \/ TCollect \/ TEnter \/ TGc \/ TRel \/ TLeave \/ TEnd \/ TReset
 TSpec == TInit /\ [][TNext]_tvars
 MarkC == TLCSet(1, IF TLCGet(1) < l THEN l ELSE TLCGet(1))
 Accepted == PrintT(<<"@@", ToJson([hw |-> TLCGet(1)])>>) /\ TLCGet(1) = Len(Trace) + 1
